@@ -21,7 +21,7 @@ var (
 // UserFields registers (once) and returns a user enterprise registry with one element of
 // every supported data type (ids 1..18 in reference-type order: id = type+1), a
 // variable-length octet array (id 1) and string (id 14), and fixed-length octet arrays of
-// every length 1..100 (id 1000+len).
+// every length 1..100 and of the LongFixedOctets lengths (id 1000+len).
 func UserFields() []ref.Field {
 	userOnce.Do(func() {
 		LoadRegistry()
@@ -38,6 +38,9 @@ func UserFields() []ref.Field {
 		for n := 1; n <= 100; n++ {
 			userFields = append(userFields, ref.Field{ID: uint16(1000 + n), Ent: UserEnt, Len: uint16(n), Type: ref.TOctets, Name: fmt.Sprintf("userFixedOctets%d", n)})
 		}
+		for _, n := range LongFixedOctets {
+			userFields = append(userFields, ref.Field{ID: uint16(1000 + n), Ent: UserEnt, Len: uint16(n), Type: ref.TOctets, Name: fmt.Sprintf("userFixedOctets%d", n)})
+		}
 		for _, f := range userFields {
 			ie := entities.NewInfoElement(f.Name, f.ID, LibType(f.Type), f.Ent, f.Len)
 			if err := registry.PutInfoElement(*ie, UserEnt); err != nil {
@@ -51,5 +54,20 @@ func UserFields() []ref.Field {
 // UserField returns the user-registered element of type t (variable-length for octets/string).
 func UserField(t ref.Type) ref.Field { return UserFields()[int(t)] }
 
-// UserFixedOctets returns the fixed-length octet array element of length n (1..100).
-func UserFixedOctets(n int) ref.Field { return UserFields()[int(ref.NumTypes)+n-1] }
+// LongFixedOctets are the additional fixed octet-array lengths registered (around the 255
+// boundary of the variable-length prefix, and large).
+var LongFixedOctets = []int{254, 255, 256, 257, 300, 1000, 4000, 30000}
+
+// UserFixedOctets returns the fixed-length octet array element of length n (1..100 or one of
+// LongFixedOctets).
+func UserFixedOctets(n int) ref.Field {
+	if n <= 100 {
+		return UserFields()[int(ref.NumTypes)+n-1]
+	}
+	for _, f := range UserFields()[int(ref.NumTypes)+100:] {
+		if int(f.Len) == n {
+			return f
+		}
+	}
+	panic(fmt.Sprintf("no fixed octet array element of length %d", n))
+}
